@@ -1,4 +1,4 @@
-import ZbossModel.Proofs.HostCover
+import ZbossModel.Proofs.HostLive
 /-! # C20 - closing or losing the link never strands a caller and is reported once -/
 namespace Zboss.Host
 
@@ -152,6 +152,36 @@ theorem C20_close_reaches_every_request (evs : List Ev) (r : Req) (hr : r ∈ (r
     (hp : r.phase ≠ .done) (hg : r.got = .nothing) : (r.id, r.key) ∈ (runEvents {} evs).1.listeners := by
   obtain ⟨hist, _, hm⟩ := mreach_run evs
   exact mreach_cov hist _ hm (core r) (List.mem_map.mpr ⟨r, hr, rfl⟩) hp hg
+
+/-- **no caller is stranded - every history**: at any point where the event loop has nothing left to run
+    (`ready = []`), a request that is still running is waiting - directly or through a chain of the three locks - for
+    an acknowledgement wait or a response wait that is still pending (both are bounded by timers).  If neither is
+    pending, nothing is running.  Rests on two invariants proved for every reachable state: queue integrity (every
+    queue entry is a running request that waits for or holds that lock) and no lost wake-up (a running request is
+    either on the ready queue or parked behind a lock it does not head, in its ACK wait, or in a pending response
+    wait) - `Proofs/HostLive.lean` -/
+theorem C20_no_stranding (evs : List Ev) (hq : (runEvents {} evs).1.ready = [])
+    (hna : ∀ r ∈ (runEvents {} evs).1.reqs, r.phase ≠ .waitAck)
+    (hnr : ∀ r ∈ (runEvents {} evs).1.reqs, r.phase = .waitRsp → r.got ≠ .nothing) :
+    ∀ r ∈ (runEvents {} evs).1.reqs, r.phase = .done :=
+  drain _ (good_reachable evs).live hq hna hnr
+
+/-- **after close only the acknowledgement wait keeps anything alive**: in a shut, quiescent state every request
+    has ended unless some request is still in its ACK wait - which lasts at most `ACK_TIMEOUT` -/
+theorem C20_close_drains (evs : List Ev) (hs : Shut (runEvents {} evs).1) (hq : (runEvents {} evs).1.ready = [])
+    (hna : ∀ r ∈ (runEvents {} evs).1.reqs, r.phase ≠ .waitAck) :
+    ∀ r ∈ (runEvents {} evs).1.reqs, r.phase = .done :=
+  drain_shut _ (good_reachable evs) hs hq hna
+
+/-- the task of a request always blocks or ends within six micro-steps: the fuel of the model's `runReq` (64) is never
+    the reason a task stops -/
+theorem C20_task_runs_to_a_stop (st : St) (i : Nat) : rank st i ≤ 5 := rank_le st i
+
+/-! ## non-vacuity: the hypotheses of `C20_no_stranding` / `C20_close_drains` on a concrete history - three requests,
+    one awaiting its ACK, two queued; close; the ACK wait expires: the loop is quiescent, nothing awaits an ACK, all ended -/
+example : let st := (runEvents {} [.start 1 5 true 3 3013, .start 2 1 true 1 5026, .start 3 2 false 2 7039, .close, .tick]).1
+    st.ready = [] ∧ (st.reqs.all fun r => r.phase != .waitAck) = true ∧ (st.reqs.all fun r => r.phase == .done) = true ∧
+    st.isOpen = false ∧ st.listeners = [] := by decide +kernel
 
 /-! ## non-vacuity: close with a request awaiting its ACK and one queued: both end within the ACK wait -/
 example : let r := runEvents {} [.start 1 5 true 3 3013, .start 2 1 true 1 5026, .close, .tick]
